@@ -66,12 +66,15 @@ C18_Hidden == At("frame") /\ E.privacy >= 0 =>
 \* covers the hop at which the target answers (`tfound`: hops holding the target's address while it is on screen)
 KF_C18 == (At("frame") /\ E.privacy >= 0 /\ \E t \in SetOf(E.tfound) : t <= E.privacy)
              => PrintT(<<"KNOWN-FINDING", "C18", "F13", l - 1>>)
-\* hops above n are shown normally: checked on frames where the table is certainly on screen and complete
-\* (large terminal, no dialog or alternative view, at most 6 hops, IP shown, addresses not limited)
-TableVisible(f) == /\ f.w >= 120 /\ f.h >= 50 /\ ~f.show_help /\ ~f.show_settings /\ ~f.show_details /\ ~f.show_chart /\ ~f.show_map
-                   /\ f.hop_count >= 0 /\ f.hop_count <= 6 /\ f.amode \in {"Ip", "Both"} /\ f.max_addrs = -1 /\ f.flow = 0 /\ f.default_cols
-C18_Shown == At("frame") /\ TableVisible(E) =>
-    \A t \in SetOf(E.resp) : (t > E.privacy) => t \in SetOf(E.found) \cup SetOf(E.tfound)
+\* hops above n are shown normally: every hop whose table row is on the captured screen (`trows`: the rows the
+\* harness could read back, which needs the main view and the numeric columns) shows one of its addresses
+\* when it responded, the mode shows addresses and its ttl is above n
+RowTtls(f) == {f.trows[i].ttl : i \in 1..Len(f.trows)}
+\* (and the host column is wide enough for an address: a wide terminal, no more columns shown than by default)
+ShownCols(f) == Cardinality({i \in 1..Len(f.cols) : f.cols[i].shown})
+HostShown(f) == \E i \in 1..Len(f.cols) : f.cols[i].id = "Host" /\ f.cols[i].shown
+C18_Shown == At("frame") /\ E.amode \in {"Ip", "Both"} /\ E.flow = 0 /\ ~E.show_details /\ E.w >= 120 /\ ShownCols(E) <= 11 /\ HostShown(E) =>
+    \A t \in RowTtls(E) : (t > E.privacy /\ t \in SetOf(E.resp)) => t \in SetOf(E.vis)     \* vis: any address of the hop is on screen
 \* expanding / contracting from the keyboard moves n by exactly one step between off, 0 and the hop count
 C18_Step == (At("frame") /\ prev.e = "frame" /\ ~prev.show_help /\ ~prev.show_settings) =>
     /\ E.key = "expand_privacy" =>
